@@ -618,6 +618,13 @@ func (t *c8tree) calls(r *gen.Rng, budget int) []c8call {
 			starts = append(starts, n)
 		}
 	}
+	// selections of terminal nodes (leaf, leaf-list, list without key) are start selections too
+	var terminals []*c8node
+	for _, n := range t.nodes {
+		if n.kind == "leaf" || n.kind == "list" {
+			terminals = append(terminals, n)
+		}
+	}
 	modName := t.m.Ident()
 	quals := []func(int, *tree.SNode) string{
 		func(int, *tree.SNode) string { return modName },
@@ -637,6 +644,11 @@ func (t *c8tree) calls(r *gen.Rng, budget int) []c8call {
 	// relative(start, target): "../" steps up to the deepest common container-like ancestor, then down
 	relative := func(s, n *c8node, sp c8spell) string {
 		p := c8common(s.steps, n.steps)
+		if !s.containerLike() && p == len(s.steps) {
+			// nothing is below a leaf or a list selection: climb to its holder (also to address
+			// the start itself, or the entries of a start list)
+			p--
+		}
 		ups := c8chainLen(s.steps) - c8chainLen(s.steps[:p])
 		return strings.Repeat("../", ups) + c8render(n.steps[p:], sp)
 	}
@@ -713,6 +725,27 @@ func (t *c8tree) calls(r *gen.Rng, budget int) []c8call {
 			lst := &c8node{steps: append(append([]c8step{}, n.steps[:len(n.steps)-1]...), c8step{idx: n.steps[len(n.steps)-1].idx, kid: n.s}), kind: "list", s: n.s}
 			out = append(out, c8call{start: n, path: "../", intent: present(lst), idesc: "../ from a list entry: the list", stream: "dotdot"})
 		}
+		// 4c. the start selection is itself one that Find returned for a terminal node - a leaf,
+		// a leaf-list, or a list addressed without a key: its parent is the selection of the node
+		// that holds it, so every ../ climbs from there (its siblings are "../name")
+		if len(terminals) > 0 && r.Chance(2, 3) {
+			s := gen.Pick(r, terminals)
+			if r.Chance(1, 2) {
+				// prefer a start close to the target: a leaf or list held by an ancestor-or-self
+				var near []*c8node
+				for _, c := range terminals {
+					if k := len(c.steps) - 1; k <= len(n.steps) && c8common(c.steps[:k], n.steps) == k {
+						near = append(near, c)
+					}
+				}
+				if len(near) > 0 {
+					s = gen.Pick(r, near)
+				}
+			}
+			sp := c8spell{esc: gen.Pick(r, []int{escCanon, escCanon, escLower, escPlus}), trailing: r.Chance(1, 4)}
+			out = append(out, c8call{start: s, path: relative(s, n, sp), intent: present(n),
+				idesc: "present node, ../ steps from the selection of a " + s.kind, stream: "dotdot-from-" + s.kind})
+		}
 		// 5. query parameters: navigation ignores read filters, the same node is found
 		if r.Chance(1, 4) {
 			q := gen.Pick(r, []string{"?depth=1", "?fields=zz", "?content=config", "?fc.max-node-count=1", "?with-defaults=trim", "?depth=1&fields=zz"})
@@ -730,6 +763,17 @@ func (t *c8tree) calls(r *gen.Rng, budget int) []c8call {
 		if hasAlt && r.Chance(1, 2) {
 			sp := c8spell{esc: escCanon, keyText: c8altKeyText(r)}
 			out = append(out, c8call{start: t.rootNode, path: c8render(n.steps, sp), intent: "INoClaim", idesc: "alternative key text (leading zeros, sign, 1/yes, enum id)", stream: "alt-key"})
+		}
+	}
+	// 4d. "../" alone from a terminal selection is the selection that holds it, and as many ../
+	// as the chain is long lead to the root
+	for i := 0; i < 3 && len(terminals) > 0; i++ {
+		s := gen.Pick(r, terminals)
+		holder := &c8node{steps: s.steps[:len(s.steps)-1]}
+		out = append(out, c8call{start: s, path: "../", intent: present(holder), idesc: "../ from the selection of a " + s.kind + ": its holder", stream: "dotdot-from-" + s.kind})
+		if i == 0 {
+			out = append(out, c8call{start: s, path: strings.Repeat("../", c8chainLen(s.steps)), intent: emit.App("IPresent", "[]"), idesc: "../ from the selection of a " + s.kind + " up to the root", stream: "dotdot-from-" + s.kind})
+			out = append(out, c8call{start: s, path: strings.Repeat("../", c8chainLen(s.steps)+1) + "x", intent: "INoClaim", idesc: "../ beyond the root from the selection of a " + s.kind, stream: "malformed"})
 		}
 	}
 	out = append(out, t.negativeCalls(r, starts)...)
@@ -863,7 +907,7 @@ func (t *c8tree) negativeCalls(r *gen.Rng, starts []*c8node) []c8call {
 // C08: Find reaches exactly the addressed node, and paths render back to it.
 func C08(ctx *core.Ctx) error {
 	ctx.Imports = "Val.Model Tree.Schema Tree.Editor Tree.Find Check.C08Check"
-	ctx.Rule = "table = one generated schema (containers, lists in lists, 1-2 keys of string/int/bool/enum types, choices incl. nested, config false sub-trees, prefix equal to or different from the module name) and data tree whose string keys are built from fragments containing / , = % + space ? # : .. non-ASCII and invalid UTF-8; finds = every node of the tree (sampled when large; list entries always) x start selection (root, an ancestor, another node via ../) x spelling (canonical, lower-case/over/minimal escaping, + for space, module-qualified segments, trailing slash, query parameters) plus absent containers/lists/keys, unknown names and malformed paths; observed: nil/NotFound/other error/panic, sel.Path as schema positions, Key(), Path.String(), content exported through a capturing reference store, re-find of the rendered path, write callbacks; non-trivial = tables with at least one list entry"
+	ctx.Rule = "table = one generated schema (containers, lists in lists, 1-2 keys of string/int/bool/enum types, choices incl. nested, config false sub-trees, prefix equal to or different from the module name) and data tree whose string keys are built from fragments containing / , = % + space ? # : .. non-ASCII and invalid UTF-8; finds = every node of the tree (sampled when large; list entries always) x start selection (root, an ancestor, another container or list entry via ../, and a selection that Find itself returned for a leaf, leaf-list or key-less list via ../ to its siblings, its holder, other nodes and the root) x spelling (canonical, lower-case/over/minimal escaping, + for space, module-qualified segments, trailing slash, query parameters) plus absent containers/lists/keys, unknown names and malformed paths; observed: nil/NotFound/other error/panic, sel.Path as schema positions, Key(), Path.String(), content exported through a capturing reference store, re-find of the rendered path, write callbacks; non-trivial = tables with at least one list entry"
 	ctx.ShardMax = 110000 // several shards classify in parallel
 	r := gen.New(ctx.Seed)
 	trees := ctx.Scale(6, 150)
